@@ -21,9 +21,10 @@ cd /verif
 out=$(VERIF_REPO_SRC=$wt/src VERIF_JOBS=${VERIF_JOBS:-8} timeout 2400 ./check $pid --tier $tier 2>&1); rc=$?
 echo "$out" | grep -E "signature:|-> " | head -6 | sed "s/^/[$name] /"
 git -C /repo worktree remove --force $wt >/dev/null 2>&1
-CLEAN="$clean" PATCHED="$patched" RC=$rc OUT="$out" TIER=$tier /venv/bin/python - "$d" <<'P'
+echo "$out" | grep -E "signature:| -> " | head -200 > /tmp/evalout-$name.txt
+CLEAN="$clean" PATCHED="$patched" RC=$rc OUTF=/tmp/evalout-$name.txt TIER=$tier /venv/bin/python - "$d" <<'P'
 import json, os, sys, subprocess
-d = sys.argv[1]; out = os.environ["OUT"]
+d = sys.argv[1]; out = open(os.environ["OUTF"]).read()
 sigs = [l.split("signature:", 1)[1].strip() for l in out.splitlines() if "signature:" in l]
 json.dump({"demo_on_clean_tree": os.environ["CLEAN"], "demo_with_change": os.environ["PATCHED"],
            "check_cmd": "VERIF_REPO_SRC=<scratch worktree>/src ./check %s --tier %s" % (os.path.basename(d).split("-")[0], os.environ["TIER"]),
